@@ -198,6 +198,13 @@ class Dataset(AbstractDataset, dict, OpMixin, GetSetDelAttrMixin):
         val = copy.copy(val)  
         val._axes = copy.deepcopy(val.axes)
 
+        # Check all axes before modifying anything, so that a rejected
+        # assignment leaves the dataset (and its axes) as it was
+        for newaxis in val.axes:
+            if newaxis.name in self.dims and not newaxis == self.axes[newaxis.name]:
+                raise ValueError("axes values do not match, align data first.\
+                        \nDataset: {}, \nGot: {}".format(self.axes[newaxis.name], newaxis))
+
         # Check dimensions
         # make sure axes match those of the dataset
         for i, newaxis in enumerate(val.axes):
